@@ -41,3 +41,7 @@ C('C01', 'differential oracle: gcc probe (sizeof/_Alignof/offsetof/bitfield stor
 C('C17', 'runtime monitor of the eq=>hash implication and differential oracles (address comparison; Python value obtained through memory) over generated pairs',
   'Exploration: pairs over primitive cdata of every type/value class (values biased to be numerically equal across types, -0.0, NaN, 2**53+1), pointer/array/struct/union/function cdata at shared and distinct addresses, and plain Python values; all six comparison operators and hash compared.',
   'long double has no Python value (implication only); NaN hashes are identity-based in CPython and not compared.')
+
+C('C20', 'three-path differential (ffi.new initializer / whole-object assignment / leaf-wise assignment into Python-allocated zero memory) on generated aggregates; ASan 0xbe malloc fill exposes missing zero-fill',
+  'Exploration: aggregates from the C01 generator (bitfields, anonymous and nested members, arrays, unions) and arrays of them x random nested initializers (short lists/tuples, dicts, bytes, cdata copies, union sequences, invalid ones); flexible-array structs: allocation size, sizeof(p[0]), bytes vs assignment into a same-length target.',
+  'long double members are not generated (their 6 padding bytes are not defined); list-order across anonymous members only compared between new and assignment. Known finding: over-long assignment to an owned flexible array member overflows.')
